@@ -114,7 +114,7 @@ pub fn build_workload(tapes: &mut Tapes, bias_fold_count: bool) -> Result<Worklo
     };
     let cfg = QueryCfg::draw(&mut tapes.query, bias_fold_count);
     let q = gen_query(&world, &mut tapes.query, cfg);
-    let args = gen_args(&q, &mut tapes.args);
+    let args = gen_args(&q, &world, &mut tapes.args);
     finish_workload(world, schema_text, schema, q, args)
 }
 
